@@ -960,7 +960,7 @@ func judge(c *hx.Ctx, ln int, prec string, body []byte, rows []storedRow, errKin
 }
 
 func Run(c *hx.Ctx) error {
-	c.Stats.Rule = "70% structured valid points (measurement/tags/field keys/strings over plain, special, unicode and non-UTF-8 bytes with random escape spellings; ints incl. 2^53 and int64 extremes; floats in every spelling incl. exponents, long mantissas, overflow/underflow edges, f suffix; all boolean spellings; timestamps x 12 precision labels), 30% malformed (single-byte damage, nasty value/timestamp tokens, structural); every line as a one-line block, plus batches (20% of the cases): half of them 2-6 lines mixing valid, invalid, empty, comment and CRLF lines, half of them 2-4 valid lines with the presence of an escape in each of the last two lines and the final newline chosen explicitly (all 8 combinations); every row of every block is compared with the reference reading. Non-trivial: the line has an escape, an integer with > 15 digits, an exponent, or is malformed; distinct by op line."
+	c.Stats.Rule = "batch ops: 70% structured valid points (measurement/tags/field keys/strings over plain, special, unicode and non-UTF-8 bytes with random escape spellings; ints incl. 2^53 and int64 extremes; floats in every spelling; all boolean spellings; timestamps x 12 precision labels), 30% malformed; one-line blocks plus batches (20%), every row compared with the reference reading. req ops (n/10): the real HTTP handler with a recording points writer - db/rp/bucket/precision parameters in any order, duplicates, v1 and v2 entrance, gzip, 1% bodies of several 64 KiB blocks. split ops (n/10): ReadLinesBlockExt with small blocks, line limits, pooled-buffer capacities, chunked readers. e2e scenarios (n/50, three dumps each: memtable, file, every 25th after a reopen): 1-3 requests through handler -> points writer -> shard -> SELECT * / SELECT field -> JSON and CSV rendering, with shared series and timestamps (last write wins), duplicate keys, type conflicts, time keys, refused names, a malformed last line. Non-trivial: a batch line with an escape, an integer with > 15 digits, an exponent, or malformed; every req / e2e op; a split op of more than one block; distinct by op line."
 	if c.Arg("mode", "") == "probe" {
 		return runProbe(c)
 	}
